@@ -56,6 +56,7 @@ pub fn engine(name: &str) -> Option<Box<dyn Erased>> {
         "raw-soup-client" => Box::new(crate::eng_soup::SoupEngine { server: false }),
         "raw-shutdown-server" => Box::new(ShutdownEngine { server: true }),
         "raw-goaway-client" => Box::new(ShutdownEngine { server: false }),
+        "raw-queue-client" => Box::new(crate::eng_queue::QueueEngine),
         "raw-http-server" => Box::new(HttpEngine { server: true }),
         "raw-http-client" => Box::new(HttpEngine { server: false }),
         "pair-coop" => Box::new(PairEngine { focus: Focus::Coop }),
